@@ -1,7 +1,8 @@
 """Virtual file system + stubs for the L5 harnesses (cminx.document / document_single_file), and the oracle spec_tree.
 
 Contract of the OS stubs: an arbitrary finite tree that does not change during the run, listed in an arbitrary order
-(no symlinks, no races, no I/O errors). Pure path algebra is the real posixpath."""
+(no races, no I/O errors; symbolic links only where a mode introduces them: the input path itself, or one link to a sibling
+directory inside the tree -- os.walk lists it and enters it only with followlinks). Pure path algebra is the real posixpath."""
 import posixpath as pp
 
 import cminx
